@@ -1,6 +1,7 @@
 package gosmt
 
 import (
+	"runtime/debug"
 	"runtime"
 	"sync/atomic"
 	"encoding/json"
@@ -528,8 +529,8 @@ func uniq(xs []string) []string {
 }
 
 func writeEvidence(cfg *Config, ev *evidence) {
-	if os.Getenv("GOSMT_NO_EVIDENCE") != "" {
-		return // runs against scratch trees (seeded changes) must not overwrite the evidence of /repo
+	if os.Getenv("GOSMT_NO_EVIDENCE") != "" || cfg.Only != "" {
+		return // runs against scratch trees (seeded changes) and partial runs (-only) must not overwrite the evidence of the full check
 	}
 	dir := filepath.Join(cfg.Verif, "evidence")
 	os.MkdirAll(dir, 0o755)
@@ -598,21 +599,39 @@ func Replay(cfg *Config, file string) int {
 }
 
 
-// memPressure is set while the process heap is above the budget (GOSMT_MEM_GB, default 24): long-running
+// memPressure is set while the process heap is above the budget (GOSMT_MEM_GB, default 10): the biggest
 // harnesses then end as inconclusive ("memory budget exceeded") instead of the whole check being killed.
-var memPressure atomic.Bool
+var memPressure, memCritical atomic.Bool
+
+// engineSizes: term-table size of every running engine (published every few thousand steps), so that
+// under memory pressure only the big consumers are ended.
+var engineSizes sync.Map // *Engine -> int
+
+func publishSize(e *Engine) { engineSizes.Store(e, len(e.tt.all)) }
+func retireEngine(e *Engine) { engineSizes.Delete(e) }
+func isBigConsumer(e *Engine) bool {
+	mine, max := len(e.tt.all), 0
+	engineSizes.Range(func(_, v interface{}) bool {
+		if n := v.(int); n > max {
+			max = n
+		}
+		return true
+	})
+	return mine*2 >= max
+}
 
 func startMemWatch() func() {
-	limit := uint64(24) << 30
+	limit := uint64(10) << 30
 	if v := os.Getenv("GOSMT_MEM_GB"); v != "" {
 		var g uint64
 		if _, err := fmt.Sscan(v, &g); err == nil && g > 0 {
 			limit = g << 30
 		}
 	}
+	debug.SetMemoryLimit(int64(limit + limit/2)) // the collector works harder near the budget
 	done := make(chan struct{})
 	go func() {
-		t := time.NewTicker(2 * time.Second)
+		t := time.NewTicker(1 * time.Second)
 		defer t.Stop()
 		for {
 			select {
@@ -621,6 +640,10 @@ func startMemWatch() func() {
 			case <-t.C:
 				var m runtime.MemStats
 				runtime.ReadMemStats(&m)
+				if os.Getenv("GOSMT_MEMDEBUG") != "" {
+					fmt.Fprintf(os.Stderr, "memwatch: heap=%dMB sys=%dMB limit=%dMB pressure=%v\n", m.HeapAlloc>>20, m.Sys>>20, limit>>20, memPressure.Load())
+				}
+				memCritical.Store(m.HeapAlloc > 2*limit)
 				if m.HeapAlloc > limit {
 					memPressure.Store(true)
 				} else if m.HeapAlloc < limit/2 {
